@@ -378,6 +378,86 @@ def run(chk):
                 p = cl.req("GET", "/")
                 if p.status != 200:
                     chk.fail("c20:probe-failed", "after %s the gateway no longer answers ListBuckets (%d)" % (label, p.status), {"request": label})
+        # ---- the same kinds of requests with the access log switched on (the logger runs on every response, also on those refused
+        # before authentication)
+        g_main, cl_main, log_main, seen_main = g, cl, logpath, panics_seen
+        g = site.gateway(gwbin, global_args=["--access-log", os.path.join(site.base, "access.log")])
+        cl = s3c.Client(g.port, "root", "rootsecret"); logpath = os.path.join(site.base, "gw-%d.log" % g.port); panics_seen = 0
+        early = [("GET", "/%zz"), ("GET", "/bk1/%zz"), ("PUT", "/bk1/%"), ("GET", "/%00"), ("GET", "/bk1/a%2"), ("DELETE", "/bk1/obj%ZZ"), ("GET", "/bk1/../../x"),
+                 ("GET", "/" + "b" * 300), ("HEAD", "/%zz"), ("POST", "/bk1/%zz?uploads"), ("GET", "/bk1/obj?versionId=../x"), ("GET", "/bk1?max-keys=x")]
+        for method, raw in early:
+            for signed in (True, False):
+                t0 = time.time()
+                try:
+                    r = cl.raw(method, raw, {"Host": "127.0.0.1:%d" % g.port}) if not signed else cl.req(method, urllib.parse.unquote(raw.split("?")[0], errors="replace") if "%zz" not in raw.lower() and not raw.endswith("%") and "%2" != raw[-2:] else "/bk1/x", raw_path=raw.split("?")[0])
+                except Exception:
+                    chk.count("client-refused"); continue
+                dt = time.time() - t0
+                chk.case(("access-log", method, raw, signed), True); chk.count("accesslog:%s:%dxx" % (method, r.status // 100 if r.status > 0 else 0))
+                after("access-log on: %s %s (%s)" % (method, raw, "signed" if signed else "no credentials"), method, r, dt, {"method": method, "raw_path": raw, "signed": signed, "access_log": True})
+        # short paths whose escaped form is several times longer (blanks, multi-byte characters, reserved punctuation), with and without
+        # valid credentials: the canonical-request code sizes buffers from them
+        for n_ in (3, 12, 20, 22, 30, 63):
+            for ch_ in (" ", "\u65e5", "+", "%25", "\u00fc", "~", "'"):
+                for secret in ("rootsecret", "wrong"):
+                    c2 = s3c.Client(g.port, "root", secret); key_ = ch_ * n_
+                    t0 = time.time()
+                    try: r = c2.req("GET", "/bk1/" + key_)
+                    except Exception: chk.count("client-refused"); continue
+                    chk.case(("escape-growth", n_, ch_, secret), True)
+                    after("GET key of %d x %r (%s secret)" % (n_, ch_, "right" if secret == "rootsecret" else "wrong"), "GET", r, time.time() - t0, {"key": key_, "secret": secret})
+        for i in range(150 if quick else 1500):
+            name, method, path, query, body, headers = rnd.choice(eps)
+            query, headers = dict(query), dict(headers)
+            k = rnd.choice(QUERY_KEYS + list(query.keys())); query[k] = rnd.choice(NASTY)
+            t0 = time.time()
+            try:
+                r = cl.req(method, path, query=query, body=body, headers=headers, sign=rnd.random() < 0.8, timeout=15)
+            except Exception:
+                chk.count("client-refused"); continue
+            chk.case(("access-log-fuzz", name, k, query[k]), True)
+            after("access-log on: %s query %s=%r" % (name, k, query[k][:20]), method, r, time.time() - t0, {"method": method, "path": path, "query": query, "access_log": True})
+        chk.tie("gateway with the access log still running", g.alive(), g.log_tail())
+        # ---- event notifications configured but the receiver is down / slow: ordinary requests must not take the process with them
+        import socket as _so, threading as _th
+        class Receiver:
+            """answers 200 with a body while mode == 'ok'; 'hang': accepts and never answers; 'down': stops listening"""
+            def __init__(self):
+                self.sk = _so.socket(); self.sk.setsockopt(_so.SOL_SOCKET, _so.SO_REUSEADDR, 1); self.sk.bind(("127.0.0.1", 0)); self.sk.listen(64)
+                self.port = self.sk.getsockname()[1]; self.mode = "ok"; self.keep = []
+                _th.Thread(target=self.loop, daemon=True).start()
+            def loop(self):
+                while True:
+                    try: c, _ = self.sk.accept()
+                    except OSError: return
+                    if self.mode == "hang": self.keep.append(c); continue
+                    try:
+                        c.settimeout(2); c.recv(65536); c.sendall(b"HTTP/1.1 200 OK\r\nContent-Length: 2\r\nConnection: close\r\n\r\nok"); c.close()
+                    except OSError: pass
+            def down(self):
+                self.mode = "down"
+                try: self.sk.close()
+                except OSError: pass
+        for what in ("the receiver went away", "the receiver stopped answering"):
+            rcv = Receiver()
+            url = "http://127.0.0.1:%d/hook" % rcv.port
+            g = site.gateway(gwbin, global_args=["--event-webhook-url", url])
+            cl = s3c.Client(g.port, "root", "rootsecret"); logpath = os.path.join(site.base, "gw-%d.log" % g.port); panics_seen = 0
+            cl.req("PUT", "/bk1/ev-warm", body=b"x"); time.sleep(0.3)
+            if what == "the receiver went away": rcv.down()
+            else: rcv.mode = "hang"
+            for j in range(6):
+                t0 = time.time(); r = cl.req("PUT", "/bk1/ev-%d" % j, body=b"x"); dt = time.time() - t0
+                chk.case(("webhook-down", what, j), True)
+                after("event webhook configured, %s: PutObject" % what, "PUT", r, dt, {"webhook": url})
+                t0 = time.time(); r = cl.req("DELETE", "/bk1/ev-%d" % j); dt = time.time() - t0
+                after("event webhook configured, %s: DeleteObject" % what, "DELETE", r, dt, {"webhook": url})
+            time.sleep(4.0)          # (the sender's own timeout is 3 s: what it does then happens in the background)
+            t0 = time.time(); r = cl.req("GET", "/"); dt = time.time() - t0
+            after("event webhook configured, %s: ListBuckets a few seconds later" % what, "GET", r, dt, {"webhook": url})
+            chk.tie("gateway whose event receiver is unreachable (%s) still running" % what, g.alive(), g.log_tail())
+            g.stop(); rcv.down()
+        g, cl, logpath, panics_seen = g_main, cl_main, log_main, seen_main
         try:
             rss = int(re.search(r"VmHWM:\s+(\d+)", open("/proc/%d/status" % g.proc.pid).read()).group(1))
             chk.extra["gateway_peak_rss_kb"] = rss
